@@ -71,11 +71,13 @@ Definition rb_iter (r : rb) : list U := it_all (S (S (S (Z.to_nat (r_len r))))) 
 (* specification: the newest-first list of the last len units *)
 Definition d_put (len : Z) (d : list U) (x : U) : list U := firstn (Z.to_nat len) (x :: d).
 
-(* iwrb_wrap(buf, buflen, usize) on a caller's buffer of buflen bytes: NULL when the header and one unit do not fit,
-   otherwise a ring of (buflen - sizeof(IWRB)) / usize units in that buffer.  (usize = 0 divides by zero in the C code:
-   the harness never passes it.) *)
+(* iwrb_create(usize, len): NULL for a ring without slots (fix 7d7a602: the first put of such a ring wrote past the allocation) *)
+Definition rb_create_opt (len : Z) : option rb := if len =? 0 then None else Some (rb_create len).
+
+(* iwrb_wrap(buf, buflen, usize) on a caller's buffer of buflen bytes: NULL when the unit size is 0 (fix 7d7a602: it divided by
+   zero) or the header and one unit do not fit, otherwise a ring of (buflen - sizeof(IWRB)) / usize units in that buffer *)
 Definition rb_wrap (buflen usize : Z) : option rb :=
-  if buflen <? CONT_sizeof_IWRB + usize then None
+  if (usize =? 0) || (buflen <? CONT_sizeof_IWRB + usize) then None
   else Some (rb_create ((buflen - CONT_sizeof_IWRB) / usize)).
 End Rb.
 
